@@ -63,7 +63,7 @@ def run_unit(ctx: Ctx, qualname: str) -> None:
                 cc = REG.classes.get(cls_qual)
                 if cc is not None:
                     for g, t in cc.ghost.items():
-                        env[p].fields[g] = interp.make_symbolic(t, f"self.{g}")
+                        env[p].fields[g] = False if t == "bool" else 0
                 interp.register_shared(env[p])
             else:
                 env[p] = interp.make_symbolic(f"obj {cls_qual}", "self")
@@ -168,6 +168,7 @@ def finish_unit(interp: Interp, fc: FnContract, env, old_env, exceptional: bool)
             ctx.prove(f"{unit}.exit.{cl.name}", interp.as_z3_bool(v), cl.text, where_exit, note="class invariant at exit", props=tuple(cl.props) or fc.props)
         if not interp.in_init and getattr(interp, "segment_start", None) is not None:
             interp.check_guarantee(where_exit, "exit")
+        interp.prove_published(where_exit)
         if fc.task and not interp.in_init:
             for cl in cc.task_inv.get(fc.task, []):
                 v = interp.spec_eval(cl, {"self": us}, None)
@@ -221,8 +222,8 @@ def _frame_eq(interp, unit, path, v, ov, where_exit, fc):
     ctx.prove(f"{unit}.frame.{path}", rz, f"{path} == old({path})  (not in modifies)", where_exit, note="frame condition", props=fc.props)
 
 
-def verify_unit(qualname: str, region=None) -> UnitResult:
-    res = explore(qualname, lambda ctx: run_unit(ctx, qualname), region=region)
+def verify_unit(qualname: str, region=None, work=None, split_after=None) -> UnitResult:
+    res = explore(qualname, lambda ctx: run_unit(ctx, qualname), region=region, work=work, split_after=split_after)
     try:
         mi, node = find_def(qualname)
         res.functions.append(
